@@ -75,8 +75,17 @@ impl Ty {
         t.to_str(&mut s);
         Ty::parse(&s).expect("own printer output parses")
     }
+    /// the library's type description, built constructor by constructor (not through the library's signature parser:
+    /// the harness also needs types whose signature the parser refuses, e.g. longer than 255 characters)
     pub fn to_sig_type(&self) -> signature::Type {
-        signature::Type::parse_description(&self.sig()).expect("generated type is valid").remove(0)
+        use signature::{Container as C, StructTypes, Type as T};
+        match self {
+            Ty::Base(c) => T::Base(base_to_sig(*c)),
+            Ty::Array(e) => T::Container(C::Array(Box::new(e.to_sig_type()))),
+            Ty::Dict(k, v) => T::Container(C::Dict(base_to_sig(*k), Box::new(v.to_sig_type()))),
+            Ty::Struct(fs) => T::Container(C::Struct(StructTypes::new(fs.iter().map(|f| f.to_sig_type()).collect()).expect("generated struct has fields"))),
+            Ty::Variant => T::Container(C::Variant),
+        }
     }
     /// protocol parser (independent of rustbus)
     pub fn parse(s: &str) -> Option<Ty> {
@@ -221,9 +230,22 @@ impl Val {
 }
 
 fn base_to_sig(c: char) -> signature::Base {
-    match signature::Type::parse_description(&c.to_string()).unwrap().remove(0) {
-        signature::Type::Base(b) => b,
-        _ => unreachable!(),
+    use signature::Base as B;
+    match c {
+        'y' => B::Byte,
+        'b' => B::Boolean,
+        'n' => B::Int16,
+        'q' => B::Uint16,
+        'i' => B::Int32,
+        'u' => B::Uint32,
+        'x' => B::Int64,
+        't' => B::Uint64,
+        'd' => B::Double,
+        'h' => B::UnixFd,
+        's' => B::String,
+        'o' => B::ObjectPath,
+        'g' => B::Signature,
+        other => panic!("not a basic type code: {:?}", other),
     }
 }
 
